@@ -663,3 +663,32 @@ Proof.
   split; [apply chain_lower_graph; exact Hwf|]. split; [apply cg_pregel|].
   intros p x s. apply chain_run_is_eval; assumption.
 Qed.
+
+(* ================= what Corr/C01.v evaluates ================= *)
+From Eino Require Import Proofs.PregelNest.
+
+(* the model run of a case = the nested engine on the root graph *)
+Lemma tree_run_is_run_nest : forall fails g F x,
+  tree_run fails (g :: F) x =
+  fst (run_nest value unit tree_ops (tree_exec fails) sched_first (S (List.length (g :: F))) (g :: F) [] g x tt).
+Proof. reflexivity. Qed.
+
+(* for a case whose root is a well-formed chain, the two things Corr/C01.v compares the observation with —
+   the engine model on the lowered forest and the sequential meaning of the chain — are equal *)
+Theorem chain_case_run_is_eval : forall fails sts max ds x,
+  chain_wf sts ->
+  let F := lower_forest (GChain sts max :: ds) in
+  tree_run fails F x =
+  fst (eval_chain value unit tree_ops (tree_exec fails)
+                  (nest_sub value unit tree_ops (tree_exec fails) sched_first (List.length F) F)
+                  [] sts max x tt).
+Proof.
+  intros fails sts max ds x Hwf F.
+  assert (HF : F = chain_graph sts max :: lower_forest ds).
+  { unfold F, lower_forest. simpl. rewrite (chain_lower_graph sts max Hwf). reflexivity. }
+  rewrite HF at 1. rewrite tree_run_is_run_nest. rewrite run_nest_S. rewrite <- HF.
+  rewrite (chain_run_is_eval value unit tree_ops (tree_exec fails) _ sched_first
+             (nest_sub_fail_nonempty value unit tree_ops (tree_exec fails) sched_first (List.length F) F)
+             sts max Hwf [] x tt).
+  reflexivity.
+Qed.
